@@ -509,10 +509,19 @@ impl LoopScn {
     }
 
     pub fn run_config(&self, seed: u64, strategy: StrategySpec, ctx: Arc<LoopCtx>) -> RunConfig {
+        // Scenarios with explicitly large counts need a larger step budget
+        // (about two steps per call and eight per sample).
+        let calls = self.sample_count.unwrap_or(100) as u64 * self.sample_size.unwrap_or(1) as u64;
+        let samples = self.sample_count.unwrap_or(100) as u64 + self.threads as u64;
+        let need = (calls.saturating_mul(2)).saturating_add(samples.saturating_mul(12));
         RunConfig {
             seed,
             strategy,
-            max_steps: 400_000,
+            max_steps: if need > 150_000 && self.sample_size.is_some() && self.min_time.is_none() {
+                (need as usize).saturating_mul(3)
+            } else {
+                400_000
+            },
             clock: self.clock.clone(),
             faults: FaultPlan {
                 spurious_parks: self.spurious_parks.clone(),
